@@ -246,6 +246,8 @@ class ReadableStream(io.RawIOBase):
         self.sdo_client = sdo_client
         self._toggle = 0
         self.pos = 0
+        # Rest of a received segment that did not fit into the caller's buffer
+        self._leftover = b""
 
         logger.debug("Reading 0x%04X:%02X from node %d", index, subindex,
                      sdo_client.rx_cobid - 0x600)
@@ -289,13 +291,16 @@ class ReadableStream(io.RawIOBase):
         :returns: 1 - 7 bytes of data or no bytes if EOF.
         :rtype: bytes
         """
+        if size is None or size < 0:
+            return self.readall()
+        if self._leftover:
+            data, self._leftover = self._leftover, b""
+            return data
         if self._done:
             return b""
         if self.exp_data is not None:
             self._done = True
             return self.exp_data
-        if size is None or size < 0:
-            return self.readall()
 
         command = REQUEST_SEGMENT_UPLOAD
         command |= self._toggle
@@ -320,14 +325,17 @@ class ReadableStream(io.RawIOBase):
         and return the number of bytes read.
         """
         data = self.read(7)
-        b[:len(data)] = data
-        return len(data)
+        # The buffer may be smaller than a segment: keep what does not fit
+        n = min(len(b), len(data))
+        b[:n] = data[:n]
+        self._leftover = data[n:]
+        return n
 
     def readable(self):
         return True
 
     def tell(self):
-        return self.pos
+        return self.pos - len(self._leftover)
 
 
 class WritableStream(io.RawIOBase):
@@ -471,6 +479,8 @@ class BlockUploadStream(io.RawIOBase):
         self._done = False
         self.sdo_client = sdo_client
         self.pos = 0
+        # Rest of a received segment that did not fit into the caller's buffer
+        self._leftover = b""
         self._crc = sdo_client.crc_cls()
         self._server_crc = None
         self._ackseq = 0
@@ -516,10 +526,13 @@ class BlockUploadStream(io.RawIOBase):
         :returns: 1 - 7 bytes of data or no bytes if EOF.
         :rtype: bytes
         """
-        if self._done:
-            return b""
         if size is None or size < 0:
             return self.readall()
+        if self._leftover:
+            data, self._leftover = self._leftover, b""
+            return data
+        if self._done:
+            return b""
 
         try:
             response = self.sdo_client.read_response()
@@ -604,7 +617,7 @@ class BlockUploadStream(io.RawIOBase):
             self.sdo_client.send_request(request)
 
     def tell(self):
-        return self.pos
+        return self.pos - len(self._leftover)
 
     def readinto(self, b):
         """
@@ -612,8 +625,11 @@ class BlockUploadStream(io.RawIOBase):
         and return the number of bytes read.
         """
         data = self.read(7)
-        b[:len(data)] = data
-        return len(data)
+        # The buffer may be smaller than a segment: keep what does not fit
+        n = min(len(b), len(data))
+        b[:n] = data[:n]
+        self._leftover = data[n:]
+        return n
 
     def readable(self):
         return True
